@@ -107,6 +107,8 @@ class Host:
         self.sub_steps = 0
         self.cut_fired = False
         self.io_faults_injected = {}
+        self.finishing = None               # the container whose finish is running
+        self.second_worker_fired = None     # service at whose delete the second cleanup worker got ahead
         self.tm_env = None
         self._inotifies = []
 
@@ -221,6 +223,7 @@ class Host:
             res = orig_del(self_, *a, **kw)
             if getattr(self_, 'name', None) == 'network':
                 host_._step('clt_del_request:done')
+            host_._second_worker(getattr(self_, 'name', None))
             return res
         rebind(_base_service.ResourceService, 'clt_del_request', clt_del_request)
 
@@ -237,7 +240,10 @@ class Host:
         # (no archives/ and metrics/ directories: finish tolerates their absence, and every file
         # costs ~1 ms on this sandbox's /tmp)
         for d in (self.tm_env.apps_dir, self.tm_env.rules_dir,
-                  os.path.join(self.tm_env.svc_network_dir, 'resources')):
+                  os.path.join(self.tm_env.svc_network_dir, 'resources'),
+                  os.path.join(self.tm_env.svc_cgroup_dir, 'resources'),
+                  os.path.join(self.tm_env.svc_localdisk_dir, 'resources'),
+                  os.path.join(self.tm_env.svc_presence_dir, 'resources')):
             os.makedirs(d, exist_ok=True)
         # the host's IP sets, created the way node initialisation creates them
         from treadmill import iptables
@@ -278,6 +284,32 @@ class Host:
                 self.cut_fired = True
             return 'fail'
         return None
+
+    # request directory of a container at each resource service (as _run.run / _finish._cleanup name them)
+    CLIENT_DIRS = {'cgroup': 'cgroups', 'localdisk': 'localdisk', 'network': 'network', 'presence': 'presence'}
+
+    def _second_worker(self, svc_name):
+        """cut ('other_worker', svc): a second cleanup worker is finishing the SAME container at the same moment (the
+        previous instance of the cleanup service is still alive when the new one starts) and is one step ahead at the
+        delete of this service's request: its own ResourceServiceClient.delete (the real one) runs to its end between
+        this worker's removal of the request link and its renaming of the request directory; then it is killed."""
+        cut = self.cut
+        if cut is None or cut[0] != 'other_worker' or cut[1] != svc_name or self.cut_fired or self.finishing is None:
+            return
+        self.cut_fired = True
+        self.second_worker_fired = svc_name
+        c = self.finishing
+        svc = getattr(self.tm_env, 'svc_' + svc_name)
+        client = svc.make_client(os.path.join(self.tm_env.apps_dir, c.unique, 'data', 'resources',
+                                              self.CLIENT_DIRS[svc_name]))
+        client.delete(c.unique)
+
+    def flag_aborted(self, container_dir, why, payload):
+        """What `treadmill sproc run` does when the runtime's run() ends with an exception."""
+        from treadmill.appcfg import abort as app_abort
+        os.makedirs(self.tm_env.app_events_dir, exist_ok=True)
+        app_abort.flag_aborted(container_dir, why=app_abort.AbortedReason(why), payload=payload)
+        self.aborted_flags_written = getattr(self, 'aborted_flags_written', 0) + 1
 
     def arm(self, cut):
         self.cut = cut
@@ -333,6 +365,12 @@ class Host:
             reply = os.path.join(req_dir, 'reply.yml')
             if os.path.exists(reply):
                 continue
+            if not os.path.isdir(req_dir):
+                # the request directory went away with its container (a start that was aborted before state.json
+                # existed is finished without any clean-up): the service sweeps such a link (_check_requests)
+                os.unlink(req_dir)
+                self.vips.pop(req_id, None)
+                continue
             if req_id not in self.vips:
                 free = [ip for ip in self.vip_pool if ip not in self.vips.values()]
                 if not free:
@@ -386,7 +424,7 @@ class Host:
     def reap_network(self):
         """on_delete_request of the daemon: a request whose link is gone frees its VIP."""
         rsrc = os.path.join(self.tm_env.svc_network_dir, 'resources')
-        live = set(os.listdir(rsrc))
+        live = set(r for r in os.listdir(rsrc) if os.path.isdir(os.path.join(rsrc, r)))
         for req_id in list(self.vips):
             if req_id not in live:
                 del self.vips[req_id]
@@ -427,8 +465,14 @@ class Host:
         os.makedirs(container_dir, exist_ok=True)
         with open(os.path.join(self.tm_env.apps_dir, unique_name, 'type'), 'w') as f:
             f.write('longrun')      # what supervisor.create_service leaves: the container is a service directory
-        if not manifest['shared_network'] and getattr(c, 'via_run', False):
+        if not manifest['shared_network'] and (getattr(c, 'via_run', False) or (cut and cut[0] == 'timeout')):
             return self._start_via_run(c, cut, container_dir)
+        if getattr(c, 'real_requests', False):
+            # the requests to the cgroup and local-disk services (real client side; nobody needs their replies here)
+            self.tm_env.svc_cgroup.make_client(os.path.join(container_dir, 'resources', 'cgroups')).put(
+                unique_name, {'memory': manifest['memory'], 'cpu': manifest['cpu']})
+            self.tm_env.svc_localdisk.make_client(os.path.join(container_dir, 'resources', 'localdisk')).put(
+                unique_name, {'size': manifest['disk']})
         network_client = self.tm_env.svc_network.make_client(
             os.path.join(container_dir, 'resources', 'network'))
         if not manifest['shared_network']:
@@ -453,11 +497,23 @@ class Host:
         app = runtime.save_app(manifest, container_dir)
         with open(os.path.join(container_dir, 'state.json')) as f:
             c.state = json.load(f)
+        def presence_request():
+            if not getattr(c, 'real_requests', False):
+                return
+            req = {'endpoints': manifest['endpoints'], 'vip': manifest['vip']}
+            if manifest.get('identity_group'):
+                req['identity_group'] = manifest['identity_group']
+            if manifest.get('identity') is not None:
+                req['identity'] = manifest['identity']
+            self.tm_env.svc_presence.make_client(os.path.join(container_dir, 'resources', 'presence')).put(
+                unique_name, req)
         if app.shared_network:
+            presence_request()
             c.close_sockets()
             c.stage = 'started'
             return 'complete'
         from treadmill import subproc
+        import traceback
         self.arm(cut)
         interrupted = False
         try:
@@ -466,6 +522,7 @@ class Host:
             # the kernel handed out a host port that an unfinished container of the same instance had before (its
             # endpoint spec is still there): the start fails, the container is aborted and finished like any other
             self.start_failed_on_reused_port = getattr(self, 'start_failed_on_reused_port', 0) + 1
+            self.flag_aborted(container_dir, 'unknown', traceback.format_exc())
             interrupted = True
         except Kill:
             if not self.cut_fired:
@@ -474,13 +531,18 @@ class Host:
         except subproc.CalledProcessError:
             if not ((self.cut_fired or getattr(self, 'cut_fired_once', False)) and self.cut and self.cut[0] in ('error', 'error2')):
                 raise
+            self.flag_aborted(container_dir, 'unknown', traceback.format_exc())
             interrupted = True
+        except socket.gaierror:
+            self.flag_aborted(container_dir, 'unknown', traceback.format_exc())
+            raise
         finally:
             self.disarm()
         if interrupted:
             c.close_sockets()       # the process died, its sockets with it
             c.stage = 'aborted'
             return 'interrupted'
+        presence_request()
         c.stage = 'started'
         return 'complete'
 
@@ -498,24 +560,38 @@ class Host:
         class _Exec(BaseException):
             pass
 
+        from treadmill import services as tm_services
+        import types
+        # cut ('timeout', svc): that resource service does not answer in time
+        silent = cut[1] if cut and cut[0] == 'timeout' else None
+
         class _Client:
-            def __init__(self, reply, on_wait=None):
-                self.reply, self.on_wait = reply, on_wait
+            """The request is made by the real client; the daemon's reply is supplied at once - or never."""
+            def __init__(self, real, reply, on_wait=None):
+                self.real, self.reply, self.on_wait = real, reply, on_wait
 
-            def put(self, _name, _req):
-                pass
+            def put(self, name, req):
+                if getattr(c, 'real_requests', False):
+                    return self.real.put(name, req)
+                return None
 
-            def wait(self, _name, timeout=None):      # pylint: disable=unused-argument
+            def wait(self, name, timeout=None):      # pylint: disable=unused-argument
                 if self.on_wait:
                     self.on_wait()
+                if silent == self.real._serviceinst.name:      # pylint: disable=protected-access
+                    host.timeout_fired = True
+                    raise tm_services.ResourceServiceTimeoutError('Resource %r not available in time' % name)
                 return self.reply
 
         class _Svc:
-            def __init__(self, reply, on_wait=None):
-                self.reply, self.on_wait = reply, on_wait
+            def __init__(self, real, reply, on_wait=None):
+                self.real, self.reply, self.on_wait = real, reply, on_wait
 
-            def make_client(self, _dir):
-                return _Client(self.reply, self.on_wait)
+            def make_client(self, path):
+                # (ResourceServiceClient() creates its directory: only for containers that make real requests)
+                if getattr(c, 'real_requests', False):
+                    return _Client(self.real.make_client(path), self.reply, self.on_wait)
+                return _Client(types.SimpleNamespace(_serviceinst=types.SimpleNamespace(name=self.real.name)), self.reply, self.on_wait)
 
         class _Image:
             def unpack(self, *_a, **_kw):
@@ -532,6 +608,9 @@ class Host:
                     return getattr(client, attr)
 
                 def wait(self, name, timeout=None):      # pylint: disable=unused-argument
+                    if silent == 'network':
+                        host.timeout_fired = True
+                        os.unlink(os.path.join(path, 'req-network-' + name, 'reply.yml'))   # the daemon never wrote it
                     # the default timeout builds an inotify watcher although the reply is already there (128 per user)
                     return client.wait(name, timeout=0)
             return _NetClient()
@@ -552,9 +631,9 @@ class Host:
             saved.append((obj, attr, getattr(obj, attr)))
             setattr(obj, attr, new)
         # the network daemon answers while the container waits for its cgroups
-        rebind(self.tm_env, 'svc_cgroup', _Svc({}, on_wait=self.serve_network))
-        rebind(self.tm_env, 'svc_localdisk', _Svc({'block_dev': '/dev/null'}))
-        rebind(self.tm_env, 'svc_presence', _Svc({}))
+        rebind(self.tm_env, 'svc_cgroup', _Svc(self.tm_env.svc_cgroup, {}, on_wait=self.serve_network))
+        rebind(self.tm_env, 'svc_localdisk', _Svc(self.tm_env.svc_localdisk, {'block_dev': '/dev/null'}))
+        rebind(self.tm_env, 'svc_presence', _Svc(self.tm_env.svc_presence, {}))
         class _NetSvc:
             def __getattr__(self, attr):
                 return getattr(real_net, attr)
@@ -569,7 +648,9 @@ class Host:
         rebind(_run.apphook, 'configure', lambda *_a, **_kw: None)
         rebind(runtime, 'allocate_network_ports', alloc)
         rebind(subproc, 'exec_pid1', exec_pid1)
+        import traceback
         self.arm(cut)
+        self.timeout_fired = False
         interrupted = False
         try:
             try:
@@ -580,6 +661,7 @@ class Host:
                 pass
             except FileExistsError:
                 self.start_failed_on_reused_port = getattr(self, 'start_failed_on_reused_port', 0) + 1
+                self.flag_aborted(container_dir, 'unknown', traceback.format_exc())
                 interrupted = True
             except Kill:
                 if not self.cut_fired:
@@ -588,7 +670,19 @@ class Host:
             except subproc.CalledProcessError:
                 if not ((self.cut_fired or getattr(self, 'cut_fired_once', False)) and self.cut and self.cut[0] in ('error', 'error2')):
                     raise
+                self.flag_aborted(container_dir, 'unknown', traceback.format_exc())
                 interrupted = True
+            except tm_services.ResourceServiceTimeoutError:
+                # LinuxRuntime._run turns it into ContainerSetupError(reason=TIMEOUT); `treadmill sproc run` flags that
+                if not self.timeout_fired:
+                    raise
+                self.flag_aborted(container_dir, 'timeout', traceback.format_exc())
+                self.start_timeouts = getattr(self, 'start_timeouts', {})
+                self.start_timeouts[silent] = self.start_timeouts.get(silent, 0) + 1
+                interrupted = True
+            except socket.gaierror:
+                self.flag_aborted(container_dir, 'unknown', traceback.format_exc())
+                raise
         finally:
             self.disarm()
             for obj, attr, old in reversed(saved):
@@ -629,6 +723,8 @@ class Host:
             self.reap_network()
             return 'complete'
         self.arm(cut)
+        self.finishing = c
+        self.second_worker_fired = None
         status = 'complete'
         io_restore = None
         if cut is not None and cut[0] in ('ioerror', 'ioerror_reply'):
@@ -685,6 +781,12 @@ class Host:
             status = 'interrupted'
         except InjectedIOError:
             status = 'interrupted'          # the finish fails and is retried
+        except FileNotFoundError:
+            # the second worker took the request directory away under this one: an attempt that ends with that error
+            # has failed and is run again (an attempt that RETURNS is judged as a completed finish)
+            if not self.second_worker_fired:
+                raise
+            status = 'interrupted'
         except Exception:       # noqa
             # a finish that ends with whatever exception after the injected transient read error has failed: the
             # cleanup supervisor starts it again.  (A finish that RETURNS is judged as a completed finish.)
@@ -694,6 +796,7 @@ class Host:
         finally:
             if io_restore is not None:
                 io_restore[0].io = io_restore[1]
+            self.finishing = None
             fired = self.disarm()
         if fired and status == 'complete':
             # the injected error was absorbed by the code under test: the operation still ended
